@@ -125,6 +125,22 @@ Section Oracles.
 
   Definition registeredb (c : client) (u rt : string) : bool :=
     negb (String.eqb u "") && matches c u && scheme_ok c u rt.
+
+  (* the statement's reading of "registered", as a proposition *)
+  Definition Matches (c : client) (u : string) : Prop :=
+    In u (c_redirects c)
+    \/ (exists gs g, c_globs c = Some gs /\ In g gs /\ glob g u = GMatch)
+    \/ (c_app c = Native /\ exists path query r,
+          loop u = Some (path, query) /\ In r (c_redirects c) /\ loop r = Some (path, query)).
+
+  Definition SchemeTable (c : client) (u rt : string) : Prop :=
+    (is_http u = true ->
+       c_dev c = true \/ (c_app c = Native /\ exists pq, loop u = Some pq) \/ (c_app c = Web /\ rt = "code"))
+    /\ (is_custom u = true -> c_app c = Native).
+
+  Definition Registered (c : client) (u rt : string) : Prop :=
+    u <> "" /\ Matches c u /\ SchemeTable c u rt.
+
 End Oracles.
 
 Definition find_client (cs : list client) (id : string) : option client :=
